@@ -91,18 +91,19 @@ int ext__kill(int pid, int sig)
   g_side_effects = g_side_effects + 1;
   int r = nondet_bool() ? 0 : -1;
   if (r == 0) g_kill_ok = g_kill_ok + 1;
+  else { int e = nondet_int(); __CPROVER_assume(e != 0); ghost_errno = e; }     /* a failed kill(2) sets errno (ESRCH: the process already exited, EPERM) */
   return r;
 }
 
 /* ---- tryToKillPids: returns exactly the number of successful kill(2) calls ---- */
 int BaseKillPlugin__tryToKillPids(BaseKillPlugin *self, vec_int pids)
   __CPROVER_requires(pids.n <= VEC_MAX && g_kill_ok <= g_kill_calls && g_kill_calls <= KILL_BUDGET && ghost_exc == 0)
-  __CPROVER_assigns(g_kill_calls, g_kill_ok, g_side_effects, g_ts_str, g_ts_val, g_pos_pids)
-  __CPROVER_ensures(__CPROVER_return_value >= 0 && (uint64_t)__CPROVER_return_value == g_kill_ok - __CPROVER_old(g_kill_ok)) /*@C17*/
+  __CPROVER_assigns(g_kill_calls, g_kill_ok, g_side_effects, g_ts_str, g_ts_val, g_pos_pids, ghost_errno)
+  __CPROVER_ensures(__CPROVER_return_value >= 0 && (uint64_t)__CPROVER_return_value == g_kill_ok - __CPROVER_old(g_kill_ok)) /*@C17,C01*/
   __CPROVER_ensures(g_kill_calls - __CPROVER_old(g_kill_calls) == g_pos_pids - __CPROVER_old(g_pos_pids))     /* every queued positive pid signalled exactly once, nothing else */ /*@C01,C17*/
   __CPROVER_ensures(g_kill_ok <= g_kill_calls && g_kill_calls <= KILL_BUDGET && ghost_exc == 0);
 #define LOOPC_BaseKillPlugin__tryToKillPids_1 \
-  __CPROVER_assigns(__begin1, nrKilled, g_kill_calls, g_kill_ok, g_side_effects, g_ts_str, g_ts_val, g_pos_pids) \
+  __CPROVER_assigns(__begin1, nrKilled, g_kill_calls, g_kill_ok, g_side_effects, g_ts_str, g_ts_val, g_pos_pids, ghost_errno) \
   __CPROVER_loop_invariant(__begin1.i <= __begin1.n && __begin1.n == pids.n && __end1.i == __begin1.n) \
   __CPROVER_loop_invariant(nrKilled >= 0 && (uint64_t)nrKilled == g_kill_ok - __CPROVER_loop_entry(g_kill_ok) && (uint64_t)nrKilled <= __begin1.i) \
   __CPROVER_loop_invariant(g_kill_calls - __CPROVER_loop_entry(g_kill_calls) == g_pos_pids - __CPROVER_loop_entry(g_pos_pids) && \
@@ -123,12 +124,13 @@ int ext__stoi(str_t s)
   __CPROVER_requires(WITHIN(g_victim, target) && g_kill_ok <= g_kill_calls && g_kill_calls <= KILL_BUDGET && ghost_exc == 0) \
   __CPROVER_assigns(g_kill_calls, g_kill_ok, g_side_effects, g_procs_fd, g_procs_open, ghost_errno, g_ts_str, g_ts_val, g_pos_pids) \
   __CPROVER_ensures(g_kill_ok >= __CPROVER_old(g_kill_ok) && g_kill_ok <= g_kill_calls && g_kill_calls <= KILL_BUDGET) \
-  __CPROVER_ensures(__CPROVER_return_value >= 0 && (uint64_t)__CPROVER_return_value == g_kill_ok - __CPROVER_old(g_kill_ok)) /*@C17*/ \
+  /* the count returned is the number of SIGKILLs that went through: it decides whether the attempt counts as a kill (C01: stop at the first victim signalled) */ \
+  __CPROVER_ensures(__CPROVER_return_value >= 0 && (uint64_t)__CPROVER_return_value == g_kill_ok - __CPROVER_old(g_kill_ok)) /*@C17,C01*/ \
   __CPROVER_ensures(g_kill_ok <= g_kill_calls && g_kill_calls <= KILL_BUDGET && ghost_exc == 0)
 int BaseKillPlugin__getAndTryToKillPids(BaseKillPlugin *self, CgroupContext target) CONTRACT_getAndTryToKillPids;
 int BaseKillPlugin__getAndTryToKillPids__rec(BaseKillPlugin *self, CgroupContext target) CONTRACT_getAndTryToKillPids;   /* the recursive call, by contract */
 #define LOOPC_BaseKillPlugin__getAndTryToKillPids_1 \
-  __CPROVER_assigns(read, line, len, pids, nrKilled, g_kill_calls, g_kill_ok, g_side_effects, g_ts_str, g_ts_val, g_pos_pids) \
+  __CPROVER_assigns(read, line, len, pids, nrKilled, g_kill_calls, g_kill_ok, g_side_effects, g_ts_str, g_ts_val, g_pos_pids, ghost_errno) \
   __CPROVER_loop_invariant(pids.n < 20 && nrKilled >= 0 && (uint64_t)nrKilled == g_kill_ok - __CPROVER_loop_entry(g_kill_ok)) \
   __CPROVER_loop_invariant(g_kill_ok <= g_kill_calls && g_kill_calls <= KILL_BUDGET)
 #define LOOPC_BaseKillPlugin__getAndTryToKillPids_2 \
